@@ -608,8 +608,12 @@ static Token *subst(Token *tok, MacroArg *args) {
         if (arg->is_omitted) {
           tok = tok->next->next->next;
         } else {
+          // Like any operand of ##, the variable arguments are not
+          // macro-expanded before they are substituted.
           cur = cur->next = copy_token(tok);
-          tok = tok->next->next;
+          for (Token *t = arg->tok; t->kind != TK_EOF; t = t->next)
+            cur = cur->next = copy_token(t);
+          tok = tok->next->next->next;
         }
         continue;
       }
